@@ -5,6 +5,10 @@ from .common import case_payload, first_diff, layout, model_for_case
 
 ID = "C09"
 LEVEL = "exploration"
+MIX = True  # a share of the decodes goes through the other front ends and byte sources (context.py)
+MIX_EXCLUDE = ("pcapng",)  # these checks look at the object the decoder returns; the pcapng front end does not pass it on
+HISTORY = True  # every second shard first runs a prelude of earlier library use (history.py)
+OLANE = True  # two more shards run in an interpreter started with -O (runner.start_olane)
 RULE = (
     "hypothesis-generated streams of 1..n command/response pairs over all command codes, with failed responses, 0-3 sessions, "
     "command- and response-parameter encryption mixed, optionally ending in a lone command. Oracle (metamorphic): events(stream) == "
